@@ -224,6 +224,10 @@ func Drive(w *ev.Writer, o Opts) {
 			var gp any
 			func() {
 				defer func() { gp = recover() }()
+				g.Sweep = 0
+				if k < 6 { // the first values of every type sweep the boundary patterns deterministically
+					g.Sweep = k + 1
+				}
 				v = g.New(t)
 			}()
 			if gp != nil {
